@@ -67,6 +67,28 @@ class MarkovChainMonteCarloRewiring(MarkovChainMonteCarlo):
                 es.append((u0, self.get_other_vertex(u0, e)))
         return es
 
+    def get_motif_vertices(self, G: nx.Graph, u0: int, edge: tuple) -> set:
+        """
+        Returns all vertices of the motif that `edge` belongs to, found by
+        walking the edges that carry its motif id starting from u0.
+        :param G: nx.Graph
+        :param u0: a vertex of the motif
+        :param edge: edge in motif
+        :returns set: vertices of the motif
+        """
+        motif_id: int = G.edges[edge][NetworkNames.MOTIF_IDS]
+        vertices: set = {u0}
+        stack: list = [u0]
+        while stack:
+            u = stack.pop()
+            for e in G.edges(u):
+                if G.edges[e][NetworkNames.MOTIF_IDS] == motif_id:
+                    w = self.get_other_vertex(u, e)
+                    if w not in vertices:
+                        vertices.add(w)
+                        stack.append(w)
+        return vertices
+
     def get_hashmap(self, G: nx.Graph, es: list) -> dict[list]:
         """
         Creates a hashmap of edges keyed by their topology.
@@ -137,6 +159,16 @@ class MarkovChainMonteCarloRewiring(MarkovChainMonteCarlo):
                     "MarkovChainMonteCarlo - paired corners belong to same motif"
                 )
                 return False
+
+        # the vertex swapped into a motif must not already belong to it, otherwise
+        # the swap creates a self-loop or folds the motif onto fewer vertices
+        if v0 in self.get_motif_vertices(
+            G, u0, e0s[0]
+        ) or u0 in self.get_motif_vertices(G, v0, e1s[0]):
+            self._logger.debug(
+                "MarkovChainMonteCarlo - focal vertex already in the other motif"
+            )
+            return False
 
         # check none of the potential target edges are already present
         # this checks all possible edges that *could* be made.
